@@ -307,6 +307,33 @@ def run(c, chk):
         chk.ok('R17.10', 'cfg_tilde_expand: %d paths to getpwnam()' % nlook, 'each has established filename[1] != 0 and filename[1] != \'/\'', sample=True)
     chk.floor('R17.10 paths to getpwnam()', nlook, 1)
 
+    # ---- R17.11: every directory that is registered takes part in the search ----------------------------------
+    chk.rule('R17.11', 'a successful cfg_add_searchpath() has linked the directory into the list (or has found the very same name in it already)')
+    nadd = 0
+    bada = None
+    for p in ex.explore(add):
+        if p.end != 'ret' or p.retval != sym.C0:
+            continue
+        nadd += 1
+        linked = any(e.kind == 'store' and e.field == 'path' and sym.root_of(e.addr) == ('p', 'cfg') and sym.root_of(e.val)[0] == 'call' for e in p.events)
+        if linked:
+            continue
+        same = False
+        for e in p.events:
+            if e.kind == 'call' and e.name == 'strcmp' and len(e.args) == 2 and any(sym.mentions(a, lambda v: v[0] == 'fld' and len(v) > 3 and v[3] == 'dir') for a in e.args):
+                for cn, t, _ in p.assume:
+                    if cn[0] == 'icmp' and cn[1] in ('eq', 'ne') and e.res in (cn[2], cn[3]) and sym.C0 in (cn[2], cn[3]) and ((cn[1] == 'eq') == t):
+                        same = True
+        if not same:
+            bada = bada or p
+    if bada is not None:
+        chk.fail('R17.11', 'searchpath-not-linked', c.where(bada.last_ins) if bada.last_ins is not None else c.where(add),
+                 'cfg_add_searchpath() can report success without having put the directory into the list (%s): a file that exists only there is "not found" although '
+                 'its directory was registered' % fp.cond_text(bada, 4))
+    elif nadd:
+        chk.ok('R17.11', 'cfg_add_searchpath: %d successful paths' % nadd, 'each links a new entry into cfg->path', sample=True)
+    chk.floor('R17.11 successful paths of cfg_add_searchpath', nadd, 1)
+
     # ---- R17.8: the file system is consulted when a name is looked up, not when a directory is registered ---
     chk.rule('R17.8', 'registering a search directory does not look at the file system (only the lookup does): resolution depends on the file system at lookup time')
     FS = ('stat', 'lstat', '__xstat', '__lxstat', 'access', 'faccessat', 'fopen', 'open', 'opendir', 'fstat', '__fxstat', 'realpath')
@@ -348,6 +375,9 @@ def resolution_idiom(c, chk, ex):
             arg = e.args[1] if e.name == 'cfg_searchpath' else e.args[0]
             first = sym.render(e.args[0]) if e.name == 'cfg_searchpath' else ''
             out.add((haspath, e.name, first, arg == ('p', namearg)))
+            if len(calls) > 1:
+                # a second resolution step on the same path (a miss in the search path answered by another lookup)
+                out.add((haspath, '+'.join(x.name for x in calls), first, arg == ('p', namearg)))
         return out
     a = idiom(c.need('cfg_parse'), 'filename')
     b = idiom(c.need('cfg_lexer_include'), 'filename')
